@@ -44,6 +44,28 @@ def make_tensor(rs, shp, cls, dt):
     elif cls == "lowtt":
         r = [1] + [int(rs.randint(1, 3)) for _ in range(order - 1)] + [1]
         X = ref.tt_dense([rs.standard_normal((r[k], shp[k], r[k + 1])) for k in range(order)])[0].reshape(shp)
+    elif cls in ("int-dtype", "int-dtype-lowrank"):
+        # integer *dtype* (not just integer values): the decomposition must not compute in integer arithmetic
+        if cls == "int-dtype":
+            X = rs.randint(-4, 5, size=shp)
+        else:
+            X = np.rint(ref.cp_dense(None, [rs.randint(-2, 3, size=(s, 2)).astype(float) for s in shp])[0])
+        if not np.any(X):
+            X[(0,) * order] = 1
+        return X.astype(np.int64)
+    elif cls == "nonneg-zero-slice":
+        # non-negative data with an identically zero slice / block (sparse, structured data)
+        X = rs.uniform(0.1, 1.0, shp)
+        k = int(rs.randint(order))
+        idx = [slice(None)] * order
+        idx[k] = int(rs.randint(shp[k]))
+        if shp[k] > 1:
+            X[tuple(idx)] = 0.0
+        if rs.rand() < 0.5:
+            X = X * (rs.uniform(size=shp) < 0.6)
+        if not np.any(X):
+            X[(0,) * order] = 1.0
+        return X.astype(dt)
     else:  # rankdef: duplicate a slice
         X = rs.standard_normal(shp)
         k = int(rs.randint(order))
@@ -72,7 +94,10 @@ def run_case(case, ctx):
     ctx.count("checked/%s" % g)
     svd = gen.choice(rs, ["truncated_svd", "truncated_svd", "symeig_svd"]) if dt == "float64" else "truncated_svd"
     acc = (1e3 * np.sqrt(eps)) if svd == "symeig_svd" else 2e3 * eps
-    cls = gen.choice(rs, ["generic", "generic", "lowmultilinear", "lowtt", "rankdef", "integer"])
+    cls = gen.choice(rs, ["generic", "generic", "lowmultilinear", "lowtt", "rankdef", "integer", "int-dtype", "int-dtype-lowrank", "nonneg-zero-slice"])
+    if cls.startswith("int-dtype"):
+        dt, eps = "float64", tol.eps_of("float64")
+        acc = (1e3 * np.sqrt(eps)) if svd == "symeig_svd" else 2e3 * eps
 
     def viol(clause, sub, what, wit=None):
         ctx.violation("C09:%s:%s:%s" % (g, clause, sub), what, wit)
